@@ -16,7 +16,7 @@ def run(ctx):
     F = ctx.facts("quick")
     for which in ("pubsub", "reqrep"):
         ex, sd, cfg = routers.report(ctx, F, which, "C09", lambda f: f.kind in ("K4", "K5", "K6"))
-        ctx.floor("C09.%s.persistent-states" % which, len(ex.persistent), 10 if which == "pubsub" else 40)
-        ctx.floor("C09.%s.park-sites" % which, ex.returns["Pending"], 4)
+        ctx.floor("C09.%s.persistent-states" % which, len(ex.persistent), 4 if which == "pubsub" else 8)
+        ctx.floor("C09.%s.park-sites" % which, ex.returns["Pending"], 1)
         ctx.ok("C09.explored", "%s router: %d reachable persistent states, %d (block,state) nodes, %d Pending / %d Ready returns examined for K4/K5, whole graph for K6"
                % (which, len(ex.persistent), len(ex.it.nodes), ex.returns["Pending"], ex.returns["Ready"]), cfg.body.span)
